@@ -334,6 +334,7 @@ def _einit(fn: ast.FunctionDef) -> tuple[str, dict]:
     map_at: int | None = None
     store_at: int | None = None
     how = 'EINone'
+    aliased = False
     for i, st in enumerate(_strip_doc(fn.body)):
         w = f'{where}:{st.lineno}'
         if isinstance(st, ast.AnnAssign) and st.value is not None:
@@ -357,7 +358,10 @@ def _einit(fn: ast.FunctionDef) -> tuple[str, dict]:
                 fresh_at = i
                 how, store_at = 'EIDirect', i
             else:
-                raise TranslateError(f'{w}: unrecognised value of self._keys: {ast.unparse(v)[:60]}')
+                # round 5: any other value (the argument itself, a conditional expression that may pick it, another object's
+                # dict ...) is not known to be a dict of this entity's own: the shape says "not a new empty dict" and the
+                # named obligation entity_init_starts_from_a_new_empty_key_dict fails (an alias shares later stores)
+                fresh_at, aliased = i, True
             continue
         # for k, v in keys.items(): self[k] = v
         if isinstance(st, ast.For) and any(isinstance(n, ast.Name) and n.id == keysp for n in ast.walk(st.iter)):
@@ -393,7 +397,7 @@ def _einit(fn: ast.FunctionDef) -> tuple[str, dict]:
             or any(isinstance(n, ast.Attribute) and n.attr in ('by_class', 'by_target', 'entities', 'spawn') for n in ast.walk(st))
         if bad:
             raise TranslateError(f'{w}: unrecognised statement {ast.unparse(st)[:80]}')
-    fresh = fresh_at is not None and (store_at is None or fresh_at <= store_at)
+    fresh = fresh_at is not None and (store_at is None or fresh_at <= store_at) and not aliased
     map_first = map_at is not None and (store_at is None or map_at < store_at or how != 'EISetItemLoop')
     return (f'Definition gen_einit : einit_shape := EI {_b(fresh)} {_b(map_first)} {how}.\n',
             dict(fresh_dict=fresh, map_first=map_first, store=how))
@@ -726,6 +730,51 @@ def _mixins(tree: ast.Module) -> tuple[str, dict]:
     return coq, dict(mutable_mapping_base=mm, own_definitions=own, getitem_never_raises=never_raises)
 
 
+# ------------------------------------------------------------------------------------------------ Entity.keys setter (round 5)
+def _keys_setter(tree: ast.Module) -> tuple[str, dict]:
+    """The deprecated `ent.keys = {...}` setter: an alternative entry point that replaces all keys.  Is it clear_keys() (an
+    alias of clear, or clear itself) followed by update(<its argument>) and nothing else that touches the entity?
+    (warnings.warn calls and the docstring are skipped.)  No setter at all: nothing to check."""
+    cls = next((n for n in tree.body if isinstance(n, ast.ClassDef) and n.name == 'Entity'), None)
+    if cls is None:
+        raise TranslateError('class Entity not found in vmf.py')
+    setters = [n for n in ast.walk(cls) if isinstance(n, ast.FunctionDef) and n.name == 'keys'
+               and any(isinstance(d, ast.Attribute) and d.attr == 'setter' for d in n.decorator_list)]
+    if not setters:
+        return 'Definition gen_keys_setter_is_clear_then_update : bool := true.\n', dict(present=False)
+    if len(setters) > 1:
+        raise TranslateError('Entity.keys: more than one setter')
+    fn = setters[0]
+    params = [a.arg for a in fn.args.args]
+    alias_ok = True
+    aliases = [n for n in cls.body if isinstance(n, ast.Assign) and any(isinstance(t, ast.Name) and t.id == 'clear_keys' for t in n.targets)]
+    defs = [n for n in ast.walk(cls) if isinstance(n, ast.FunctionDef) and n.name == 'clear_keys']
+    if defs or len(aliases) != 1 or not (isinstance(aliases[0].value, ast.Name) and aliases[0].value.id == 'clear' and len(aliases[0].targets) == 1):
+        alias_ok = False
+    body = []
+    for st in _strip_doc(fn.body):
+        if isinstance(st, ast.Expr) and isinstance(st.value, ast.Call) and isinstance(st.value.func, ast.Attribute) \
+                and st.value.func.attr == 'warn' and isinstance(st.value.func.value, ast.Name) and st.value.func.value.id == 'warnings':
+            continue
+        if isinstance(st, ast.Pass):
+            continue
+        body.append(st)
+
+    def self_call(st: ast.stmt, names: tuple[str, ...]) -> ast.Call | None:
+        if isinstance(st, ast.Expr) and isinstance(st.value, ast.Call) and isinstance(st.value.func, ast.Attribute) \
+                and st.value.func.attr in names and isinstance(st.value.func.value, ast.Name) and st.value.func.value.id == params[0] \
+                and not st.value.keywords:
+            return st.value
+        return None
+    ok = len(params) == 2 and len(body) == 2
+    if ok:
+        c1, c2 = self_call(body[0], ('clear', 'clear_keys')), self_call(body[1], ('update',))
+        ok = (c1 is not None and not c1.args and (c1.func.attr == 'clear' or alias_ok)    # type: ignore[union-attr]
+              and c2 is not None and len(c2.args) == 1 and isinstance(c2.args[0], ast.Name) and c2.args[0].id == params[1])
+    return (f'Definition gen_keys_setter_is_clear_then_update : bool := {_b(ok)}.\n',
+            dict(present=True, clear_then_update=ok, clear_keys_is_clear=alias_ok))
+
+
 def translate() -> tuple[str, dict]:
     path = SRC / 'vmf.py'
     try:
@@ -742,6 +791,7 @@ def translate() -> tuple[str, dict]:
         ('pop', _pop(_find(tree, 'Entity', 'pop'))),
         ('make_unique', _make_unique(_find(tree, 'Entity', 'make_unique'))),
         ('mixins', _mixins(tree)),
+        ('keys_setter', _keys_setter(tree)),
     ]
     text = ('(* GENERATED by translate/c07_index_glue.py from /repo/src/srctools/vmf.py. Do not edit. *)\n'
             'From stdpp Require Import list.\nFrom Coq Require Import NArith.\n'
